@@ -16,7 +16,7 @@ Inductive case :=
    what reason did the v5 PUBACK carry, and the SUBACK code of the filter only authenticator j forbids;
    finally: a session that was connected under the same client id before a REFUSED attempt is still served *)
 | CChain (verdicts : list bool) (v5 : bool) (connack : N)
-         (routed retained : list bool) (puback suback : list N) (undisturbed : bool) (ran : bool)
+         (routed retained : list bool) (puback suback suback_shared : list N) (undisturbed : bool) (ran : bool)
 (* publishes of one v5 connection (topic number or alias only, alias or 0) under a write ACL that forbids topic 9;
    observed per publish: 10+t routed to topic t | 1 refused, not routed | 2 the connection was closed *)
 | CAlias (ps : list (option N * N)) (obs : list N) (ran : bool).
@@ -37,12 +37,12 @@ Definition case_ok (c : case) : bool :=
       load_ok && forallb (fun q =>
         (vcode (password m (q_user q) (q_hash q)) =? o_password q) &&
         (vcode (acl m (q_user q) (q_topic q) (q_write q)) =? o_acl q)) qs
-  | CChain vs v5 connack routed retained puback suback undisturbed ran =>
+  | CChain vs v5 connack routed retained puback suback suback_shared undisturbed ran =>
       ran &&
       match password_chain vs 0 with
       | None =>
           (connack =? (if v5 then 135 else 5)) && undisturbed
-          && match routed, retained, puback, suback with [], [], [], [] => true | _, _, _, _ => false end
+          && match routed, retained, puback, suback, suback_shared with [], [], [], [], [] => true | _, _, _, _, _ => false end
       | Some k =>
           let idx := seq 0 (length vs) in
           let allowed := map (fun j => negb (Nat.eqb j k)) idx in       (* only the ACCEPTING authenticator's rules apply *)
@@ -50,6 +50,9 @@ Definition case_ok (c : case) : bool :=
           && list_eqb Bool.eqb routed allowed && list_eqb Bool.eqb retained allowed
           && list_eqb N.eqb puback (map (fun a : bool => if a then 0 else (if v5 then 135 else 0)) allowed)
           && list_eqb N.eqb suback (map (fun a : bool => if a then 1 else (if v5 then 135 else 128)) allowed)
+          (* v5: the same filters as shared subscriptions $share/<name>/<filter> get the same verdicts *)
+          && (if v5 then list_eqb N.eqb suback_shared (map (fun a : bool => if a then 1 else 135) allowed)
+              else match suback_shared with [] => true | _ => false end)
       end
   | CAlias ps obs ran =>
       ran && list_eqb N.eqb (map acode (alias_run (fun t => negb (t =? 9)) [] ps)) obs
